@@ -56,7 +56,7 @@ struct leafctl {
   bool reacts = true;  // completes with done from the stop callback
   std::atomic<int> state{ST_CREATED};
   std::atomic<bool> claimed{false};
-  std::atomic<uint64_t> attempt_seq{0}, start_seq{0}, cseq{0};
+  std::atomic<uint64_t> attempt_seq{0}, start_seq{0}, cseq{0}, claim_seq{0};
   std::atomic<int> completions{0};
   std::atomic<int> completed_with{-1};
   std::atomic<bool> saw_stop{false};
@@ -472,8 +472,10 @@ void run_history(rng& r, stats_t& st, int W, int C) {
         }
         if (lr.chance(1, 2))
           spin_ns(lr.below(15000));
-        if (!c->claimed.exchange(true, std::memory_order_acq_rel))
+        if (!c->claimed.exchange(true, std::memory_order_acq_rel)) {
+          c->claim_seq.store(now(), std::memory_order_relaxed);  // before the leaf deregisters its stop callback
           c->complete_fn(c->op, c->outcome);
+        }
       }
     });
   }
@@ -598,10 +600,12 @@ void run_history(rng& r, stats_t& st, int W, int C) {
   // a future dropped while its operation was still running must have requested stop on it
   for (auto& dv : dropped)
     for (auto& [c, dseq] : dv) {
-      if (c->state.load() == ST_COMPLETED && c->start_seq.load() && c->cseq.load() > dseq && !c->saw_stop.load())
+      // claim_seq is taken by the completer before the leaf deregisters its stop callback: if it is later than
+      // the drop's return, the callback was registered during the whole drop
+      if (c->state.load() == ST_COMPLETED && c->start_seq.load() && c->claim_seq.load() > dseq && !c->saw_stop.load())
         violation("C09:future:dropped-future-did-not-request-stop", "leaf %d was still running when its future was "
-                  "dropped (drop returned at %llu, leaf completed at %llu) and never saw a stop request", c->id,
-                  (unsigned long long)dseq, (unsigned long long)c->cseq.load());
+                  "dropped (drop returned at %llu, completer claimed the leaf at %llu) and never saw a stop request", c->id,
+                  (unsigned long long)dseq, (unsigned long long)c->claim_seq.load());
     }
   for (auto& s : wst) {
     st.discarded += s.discarded;
